@@ -40,6 +40,8 @@ pub struct GenCfg {
     pub stack_anyway: bool,
     /// percent chance (per shape draw) of a keyword-list alternation of 28..48 literals
     pub big_choices_pct: u32,
+    /// percent chance (per shape draw) of keyword-exclusion alternatives: `!k ~ x | !w ~ y | !k ~ z`
+    pub negpred_pct: u32,
 }
 
 impl GenCfg {
@@ -58,6 +60,7 @@ impl GenCfg {
             wide_literals: false,
             stack_anyway: false,
             big_choices_pct: 0,
+            negpred_pct: 0,
         }
     }
 }
@@ -96,7 +99,7 @@ enum Need {
     Consume,
 }
 
-pub const LITS: &[&str] = &["a", "b", "c", "ab", "ba", "aa", "abc", "é", " ", "\n", "x", "bX", "A", "aB", "€", "-"];
+pub const LITS: &[&str] = &["a", "b", "c", "ab", "ba", "aa", "abc", "é", " ", "\n", "x", "bX", "A", "aB", "€", "-", "a", "b", "ab", "É", "kΩ", "🎈", "\r"];
 pub const BUILTIN_CHARS: &[&str] = &[
     "ANY",
     "ASCII_DIGIT",
@@ -602,6 +605,34 @@ impl<'a> G<'a> {
             let tail = self.gen(d.saturating_sub(2), lm, if need == Need::Free { Need::CanFail } else { need });
             return Some(Expr::Choice(Box::new(list), Box::new(tail)));
         }
+        if self.cfg.negpred_pct > 0 && self.rng.chance(self.cfg.negpred_pct, 100) {
+            // alternatives that each begin by excluding a (non-silent) rule: several rules match under
+            // negation at one position, some of them more than once
+            let n = 2 + self.rng.below(4);
+            let mut alts: Vec<Expr> = vec![];
+            let pool: Vec<String> = self.names.iter().filter(|x| *x != "WHITESPACE" && *x != "COMMENT").cloned().collect();
+            for _ in 0..n {
+                let mut e = self.gen(d.saturating_sub(2), false, Need::Consume);
+                for _ in 0..1 + self.rng.below(2) {
+                    let r = self.rng.pick(&pool).clone();
+                    let idx = self.names.iter().position(|x| *x == r).unwrap_or(0);
+                    if lm && idx <= self.cur {
+                        // keep leftmost references acyclic: exclude a literal instead
+                        e = Expr::Seq(Box::new(Expr::NegPred(Box::new(Expr::Str(self.lit_nonempty())))), Box::new(e));
+                    } else {
+                        e = Expr::Seq(Box::new(Expr::NegPred(Box::new(Expr::Ident(r)))), Box::new(e));
+                    }
+                }
+                alts.push(e);
+            }
+            let mut it = alts.into_iter();
+            let mut ch = it.next().unwrap();
+            for a in it {
+                ch = Expr::Choice(Box::new(ch), Box::new(a));
+            }
+            let _ = need;
+            return Some(ch);
+        }
         let k = self.rng.below(8);
         match k {
             0 => {
@@ -614,6 +645,9 @@ impl<'a> G<'a> {
                 for _ in 0..nn {
                     if self.rng.chance(1, 6) && self.needle_rule.is_some() && self.needle_rule != Some(self.cur) && !(lm && self.needle_rule.unwrap() <= self.cur) {
                         needles.push(Expr::Ident(self.names[self.needle_rule.unwrap()].clone()));
+                    } else if self.rng.chance(1, 7) {
+                        // a built-in as needle (the skipper may inline rules, not built-ins)
+                        needles.push(Expr::Ident(self.rng.pick(&["NEWLINE", "ASCII_DIGIT", "NEWLINE"]).to_string()));
                     } else if !self.guarded() && self.rng.chance(1, 8) {
                         needles.push(Expr::Str(String::new()));
                     } else {
@@ -716,7 +750,30 @@ impl<'a> G<'a> {
                             return r;
                         }
                     }
-                    let m = match g.rng.below(6) {
+                    let m = match g.rng.below(8) {
+                        6 => {
+                            // a branching operator over a bare POP *inside* a PUSH
+                            let t = g.terminal_consuming();
+                            let inner = if g.rng.chance(1, 2) {
+                                Expr::Choice(Box::new(Expr::Ident("POP".into())), Box::new(t))
+                            } else {
+                                Expr::Seq(Box::new(Expr::Opt(Box::new(Expr::Ident("POP".into())))), Box::new(t))
+                            };
+                            g.mk_push(inner)
+                        }
+                        7 => {
+                            // two branching uses of the same popping rule in one body
+                            let r = match g.stack_rule.clone() {
+                                Some((name, _)) => Expr::Ident(name),
+                                None => Expr::Ident("POP".into()),
+                            };
+                            let t1 = g.terminal_consuming();
+                            let t2 = g.terminal_consuming();
+                            Expr::Seq(
+                                Box::new(Expr::Choice(Box::new(r.clone()), Box::new(t1))),
+                                Box::new(Expr::Choice(Box::new(r), Box::new(t2))),
+                            )
+                        }
                         0 => Expr::Ident("POP".into()),
                         1 => Expr::Ident("DROP".into()),
                         2 => Expr::Ident("POP_ALL".into()),
@@ -807,6 +864,15 @@ pub fn alphabet_of(rules: &[Rule]) -> Vec<char> {
             Expr::Str(s) | Expr::Insens(s) => {
                 for c in s.chars() {
                     set.insert(c);
+                    if matches!(e, Expr::Insens(_)) && !c.is_ascii() {
+                        // the documentation says ASCII-only folding: offer the Unicode case variants as inputs
+                        for v in c.to_uppercase().chain(c.to_lowercase()) {
+                            set.insert(v);
+                        }
+                        if c == 'k' || c == 'K' {
+                            set.insert('\u{212A}');
+                        }
+                    }
                     if c.is_ascii_alphabetic() {
                         set.insert(if c.is_ascii_lowercase() { c.to_ascii_uppercase() } else { c.to_ascii_lowercase() });
                     }
